@@ -111,7 +111,7 @@ Section Sim.
                | None => CDrop
                end) e d.
   Proof.
-    intros Hs Hb. unfold vec_step, vec_body. rewrite (slice_vec_body pre tok Hs Hb).
+    intros Hs Hb. unfold vec_step, vec_body. cbv iota. rewrite (slice_vec_body pre tok Hs Hb).
     destruct (vec_elems_text (length pre) tok) as [body|]; cbn [rbind step_spec]; [|reflexivity].
     unfold push_vector. destruct (parse_vector vt body); reflexivity.
   Qed.
